@@ -375,6 +375,101 @@ async fn probe_nested_list() {
     }
 }
 
+async fn probe_blobs() {
+    for ver in [LanceFileVersion::V2_0, LanceFileVersion::V2_1] {
+        let schema = Arc::new(Schema::new(vec![
+            Field::new("id", DataType::Int64, false),
+            Field::new("b", DataType::LargeBinary, true)
+                .with_metadata([("lance-encoding:blob".to_string(), "true".to_string())].into_iter().collect()),
+        ]));
+        for (name, blobs) in [
+            ("all-present", vec![Some(vec![1u8, 2, 3]), Some(vec![4u8; 700]), Some(vec![5u8; 3000])]),
+            ("with-null", vec![Some(vec![1u8, 2, 3]), None, Some(vec![5u8; 3000])]),
+            ("with-empty", vec![Some(vec![1u8, 2, 3]), Some(vec![]), Some(vec![5u8; 3000])]),
+            ("all-null", vec![None, None, None]),
+        ] {
+            let b = RecordBatch::try_new(
+                schema.clone(),
+                vec![ids(0, blobs.len()), Arc::new(LargeBinaryArray::from_iter(blobs.iter().map(|x| x.as_deref())))],
+            )
+            .unwrap();
+            let uri = format!("memory://probe-blob-{name}-{ver:?}");
+            let reader = RecordBatchIterator::new(vec![Ok(b)], schema.clone());
+            let p = WriteParams { data_storage_version: Some(ver), ..Default::default() };
+            let ds = match guard(Dataset::write(reader, uri.as_str(), Some(p))).await {
+                Ok(d) => Arc::new(d),
+                Err(e) => {
+                    println!("[{name}] {ver:?} write failed {}", e.brief());
+                    continue;
+                }
+            };
+            for keys in [vec![0u64], vec![1], vec![2], vec![0, 1, 2], vec![2, 0]] {
+                let ds2 = ds.clone();
+                let k2 = keys.clone();
+                let r = guard(async move {
+                    let files = ds2.take_blobs(&k2, "b").await?;
+                    let mut out = vec![];
+                    for f in files {
+                        out.push((f.size(), f.read().await.map(|b| b.len()).map_err(|e| e.to_string().chars().take(80).collect::<String>())));
+                    }
+                    Ok(out)
+                })
+                .await;
+                println!("[{name}] {ver:?} take_blobs({keys:?}) -> {:?}", r.map_err(|e| e.brief().chars().take(200).collect::<String>()));
+            }
+        }
+    }
+}
+
+async fn probe_blobs21() {
+    let schema = Arc::new(Schema::new(vec![
+        Field::new("id", DataType::Int64, false),
+        Field::new("b", DataType::LargeBinary, true)
+            .with_metadata([("lance-encoding:blob".to_string(), "true".to_string())].into_iter().collect()),
+    ]));
+    let mut rng = vmon::prng::Rng::new(7);
+    for (name, n, rows_per_file, sizes) in [
+        ("small-only", 8usize, 100usize, vec![1usize, 5, 10]),
+        ("mixed", 8, 100, vec![0, 5, 700, 3000]),
+        ("mixed-multi-file", 12, 4, vec![0, 5, 700, 3000]),
+        ("big-only", 8, 100, vec![700, 3000, 4000]),
+        ("with-nulls", 8, 100, vec![usize::MAX, 5, 700]),
+    ] {
+        let blobs: Vec<Option<Vec<u8>>> = (0..n)
+            .map(|_| {
+                let s = *rng.pick(&sizes);
+                if s == usize::MAX { None } else { Some(rng.bytes(s)) }
+            })
+            .collect();
+        let b = RecordBatch::try_new(
+            schema.clone(),
+            vec![ids(0, n), Arc::new(LargeBinaryArray::from_iter(blobs.iter().map(|x| x.as_deref())))],
+        )
+        .unwrap();
+        let uri = format!("memory://probe-blob21-{name}");
+        let reader = RecordBatchIterator::new(vec![Ok(b)], schema.clone());
+        let p = WriteParams { data_storage_version: Some(LanceFileVersion::V2_1), max_rows_per_file: rows_per_file, ..Default::default() };
+        let ds = Arc::new(Dataset::write(reader, uri.as_str(), Some(p)).await.unwrap());
+        let addrs: Vec<u64> = {
+            let mut s = ds.scan();
+            s.project(&["id"]).unwrap();
+            s.with_row_address();
+            let bs: Vec<RecordBatch> = s.try_into_stream().await.unwrap().try_collect().await.unwrap();
+            bs.iter().flat_map(|b| b.column_by_name("_rowaddr").unwrap().as_any().downcast_ref::<UInt64Array>().unwrap().values().to_vec()).collect()
+        };
+        for (i, a) in addrs.iter().enumerate() {
+            let ds2 = ds.clone();
+            let a2 = *a;
+            let r = guard(async move {
+                let files = ds2.take_blobs(&[a2], "b").await?;
+                Ok(files.iter().map(|f| f.size()).collect::<Vec<_>>())
+            })
+            .await;
+            println!("[{name}] row {i} addr {a} written {:?} -> {:?}", blobs[i].as_ref().map(|b| b.len()), r.map_err(|e| e.brief().chars().take(120).collect::<String>()));
+        }
+    }
+}
+
 pub fn run(args: &Args) -> i32 {
     crate::util::install_quiet_panic_hook();
     let rt = tokio::runtime::Builder::new_current_thread().enable_all().build().unwrap();
@@ -384,6 +479,8 @@ pub fn run(args: &Args) -> i32 {
             "list" => probe_list_batches().await,
             "itemnull" => probe_list_itemnull().await,
             "nulllist" => probe_nulllist().await,
+            "blobs" => probe_blobs().await,
+            "blobs21" => probe_blobs21().await,
             "nestedlist" => probe_nested_list().await,
             "allnulllist" => probe_allnull_list().await,
             "slicednull" => probe_sliced_null_list().await,
